@@ -1525,7 +1525,7 @@ def which_kind(spec, year, which):
 # object it refers to (several exceptions may share one); the reference ignores the key.
 
 P5_HOWS = ("write-list", "assign", "inplace", "recreate")
-P5_NOTIFIED = ("exc-set", "exc-elem", "weekly-set", "weekly-elem")     # writes the interpreter monitors (schedule_changed)
+P5_NOTIFIED = ("exc-set", "exc-elem", "exc-len", "weekly-set", "weekly-elem")     # writes the interpreter monitors (schedule_changed)
 
 
 class Stage(object):
@@ -1593,6 +1593,10 @@ class Stage(object):
             _, k, e = op
             self.so.WriteProperty("exceptionSchedule", self.special(e), arrayIndex=k + 1, direct=True)
             desc["exceptions"] = desc["exceptions"][:k] + (e,) + desc["exceptions"][k + 1:]
+        elif kind == "exc-len":
+            # the BACnet way of changing an array's length: a write to element 0 (shortening drops the last exceptions)
+            self.so.WriteProperty("exceptionSchedule", op[1], arrayIndex=0, direct=True)
+            desc["exceptions"] = desc["exceptions"][:op[1]]
         elif kind == "weekly-set":
             self.so.weeklySchedule = ArrayOfDaily([DailySchedule(daySchedule=mk_tvs(day)) for day in op[1]])
             desc["weekly"] = tuple(op[1])
@@ -1682,6 +1686,9 @@ def p5_changes(desc, d):
             member = any(ref.entry_matches(x, d) for x in e["period"][1])
             e3 = dict(e, cal=9, period=("cal", (other,) if member else (other, hits[0])))
             yield ("exception-referred-to-another-calendar", (("exc-set", excs[:k] + (e3,) + excs[k + 1:]),), (("exc-set", excs),))
+    if excs and (len(excs) > 1 or desc["weekly"] is not None):
+        # the array is shortened by one through element 0, and restored by writing the whole array
+        yield ("exception-array-shortened-through-element-0", (("exc-len", len(excs) - 1),), (("exc-set", excs),))
     added = {"period": ("date", dpat(d)), "tv": (((0, 0, 0, 0), 901), ((17, 0, 0, 0), None)), "prio": 1}
     yield ("exception-added", (("exc-set", excs + (added,)),), (("exc-set", excs),))
     if len(excs) >= 2:
